@@ -581,6 +581,29 @@ func (g *Gen) genNew(t *rapid.T) *Op {
 		if op.Init != InitNilFn {
 			op.Vals = g.vals(len(list))
 		}
+		if op.Init == InitVal && len(list) == 1 && !comps.All[list[0]].Relation && rapid.IntRange(0, 2).Draw(t, "aliasedSource") == 0 {
+			// the initial value is the pointer to another entity's component inside the world (m.NewEntity(m.Get(src))):
+			// prefer a source in the destination table, which may have to grow for the new entity
+			c := list[0]
+			var same, other []int
+			for _, s := range m.AliveList() {
+				if e := &m.Ents[s]; e.Val[c] == 0 {
+					continue // never written: nothing that a copy could get wrong
+				} else if e.Mask == 1<<uint(c) {
+					same = append(same, s)
+				} else if e.Mask&(1<<uint(c)) != 0 {
+					other = append(other, s)
+				}
+			}
+			if len(same) == 0 {
+				same = other
+			}
+			if len(same) > 0 {
+				op.E = rapid.SampledFrom(same).Draw(t, "aliasSource")
+				op.Mode = 7
+				op.Vals = []int64{m.Ents[op.E].Val[c]}
+			}
+		}
 		return op
 	}
 }
@@ -1760,6 +1783,15 @@ func (g *Gen) genRelCycle(t *rapid.T) *Op {
 			q = append(q, &Op{K: "obsNew", Mode: 1, OS: &ObsSpec{Inst: -1, Ev: EvAddRels, For: []int{r}, Reenter: true}})
 		}
 		q = append(q, &Op{K: "newBatch", P: PMap, M: r, Comps: []int{r}, N: 0, Init: InitVal, Vals: g.vals(1), Rels: []RelSpec{{C: r, T: tgt, S: rapid.IntRange(0, 2).Draw(t, "relStyle")}}})
+		if rapid.IntRange(0, 3).Draw(t, "cycleEmptyBatchOnly") == 0 {
+			// the empty batch is the only operation that ever names the target: when the target dies the table has to go
+			// (or at least must not serve a later call that names the dead entity: that call must be rejected)
+			g.It.count("relation-cycle-target-named-by-an-empty-batch-only")
+			q = append(q, &Op{K: "removeEntity", E: tgt})
+			q = append(q, &Op{K: "new", P: PUnsafe, Comps: cl, Vals: g.vals(len(cl)), Rels: []RelSpec{{C: r, T: tgt, S: 2}}})
+			g.queue = q[1:]
+			return q[0]
+		}
 		for i, k := 0, rapid.IntRange(1, 3).Draw(t, "cycleChildren"); i < k; i++ {
 			children = append(children, next)
 			mkChild(-1)
